@@ -151,3 +151,11 @@ pub assume_specification<T, A: core::alloc::Allocator> [ <Vec<T, A> as AsRef<[T]
 pub fn vp_str_len(s: &str) -> (r: usize)
     ensures r == utf8(s@).len(),
 { s.len() }
+pub assume_specification<T> [ <[T] as AsRef<[T]>>::as_ref ] (s: &[T]) -> (r: &[T])
+    ensures r@ == s@;
+/// N13 shim for `x.as_ref()` where `x: &mut [u8]` (`impl AsRef<U> for &mut T`: its lifetime structure cannot be restated
+/// in an assume_specification with this Verus); the body is the original call
+#[verifier::external_body]
+pub fn vp_mut_slice_as_ref<'a>(b: &'a mut [u8]) -> (r: &'a [u8])
+    ensures r@ == old(b)@, final(b)@ == old(b)@,
+{ &*b }
